@@ -360,6 +360,21 @@ def str_method(ex, s, name, args, kw, st):
                     ex2.raise_on(s3, 'IndexError', 'split()[%d]' % i)
             return res
         return [(st, Opaque('strsplit', {'index': sp_index, 'of': s}))]
+    if name == 'join' and isinstance(args[0], tuple) and all(isinstance(x, (str, SStr)) for x in args[0]):
+        parts = []
+        for k, x in enumerate(args[0]):
+            if k:
+                parts.append(zs)
+            parts.append(ex.z_str(x))
+        if not parts:
+            return [(st, '')]
+        return [(st, SStr(z3.Concat(*parts) if len(parts) > 1 else parts[0]))]
+    if name in ('strip', 'lstrip', 'rstrip') and not args:
+        lib('str.%s() (uninterpreted; result is a contiguous piece of the argument)' % name)
+        fn = z3.Function('py_' + name, z3.StringSort(), z3.StringSort())
+        r = fn(zs)
+        st.assume(z3.Contains(zs, r))
+        return [(st, SStr(r))]
     if name == 'join':
         h = getattr(ex, 'str_join', None)
         if h:
